@@ -1,7 +1,7 @@
 (* C15 — proofs: the debugging allocator over whole histories (code after fixes/C15-1 and C15-2):
    for every sequence of allocate(n) / deallocate(live block) the spec oracle accepts the model's trace. *)
 From Coq Require Import List NArith Bool Arith Lia Permutation.
-From DuneV Require Import C15_Model C15_Spec C15_Proofs C15_Proofs_Sys.
+From DuneV Require Import Params_gen C15_Model C15_Spec C15_Proofs C15_Proofs_Sys.
 Import ListNotations.
 Local Open Scope N_scope.
 
@@ -15,8 +15,23 @@ Record c15_dbg_inv (page : N) (st : c15_dbg_state) : Prop := {
   di_below : Forall (fun it => d_page_ptr it < ds_next st) (ds_list st);
   di_next : (page | ds_next st);
   di_live : ds_live st = map c15_dbg_view (ds_list st);
-  di_type : Forall (fun it => d_type it = 0) (ds_list st)
+  di_type : Forall (fun it => d_type it = 0) (ds_list st);
+  (* every mapping has capacity/page + 2 pages and lies below the next free address; the mappings are disjoint and ordered *)
+  di_ext : Forall (fun it => d_pages it = d_capacity it / page + 2 /\ d_page_ptr it + d_pages it * page <= ds_next st) (ds_list st);
+  di_sep : ForallOrdPairs (fun a b => d_page_ptr a + d_pages a * page <= d_page_ptr b) (ds_list st)
 }.
+
+Lemma c15_fop_snoc {A} (R : A -> A -> Prop) l x : ForallOrdPairs R l -> Forall (fun a => R a x) l -> ForallOrdPairs R (l ++ [x]).
+Proof.
+  induction 1 as [|a l Ha Hl IH]; cbn; intros H; [repeat constructor|].
+  inversion H; subst. constructor; [apply Forall_app; split; [exact Ha|repeat constructor; assumption]|apply IH; assumption].
+Qed.
+Lemma c15_fop_remove {A} (R : A -> A -> Prop) l1 x l2 : ForallOrdPairs R (l1 ++ x :: l2) -> ForallOrdPairs R (l1 ++ l2).
+Proof.
+  induction l1 as [|a l1 IH]; cbn; intros H; inversion H; subst; [assumption|].
+  constructor; [|apply IH; assumption].
+  apply Forall_app in H2. destruct H2 as [F1 F2]. inversion F2; subst. apply Forall_app; split; assumption.
+Qed.
 
 Lemma c15_dbg_inv0 page : c15_dbg_inv page (c15_dbg_state0 page).
 Proof. constructor; cbn; try constructor. exists 16. reflexivity. Qed.
@@ -100,6 +115,11 @@ Section C15DbgHistory.
           -- apply N.divide_refl.
         * rewrite map_app, (di_live _ _ I). cbn. unfold c15_dbg_view. rewrite Hsz. reflexivity.
         * apply Forall_app. split; [apply (di_type _ _ I)|]. constructor; [exact Ht|constructor].
+        * rewrite (c15_wrap_small _ Hpg). apply Forall_app. split.
+          -- eapply Forall_impl; [|apply (di_ext _ _ I)]. cbn. intros a [Ha1 Ha2]. split; [exact Ha1|lia].
+          -- constructor; [|constructor]. rewrite Hpp, Hcap. split; [exact Hpgs|lia].
+        * apply c15_fop_snoc; [apply (di_sep _ _ I)|].
+          eapply Forall_impl; [|apply (di_ext _ _ I)]. cbn. intros a [_ Ha2]. rewrite Hpp. exact Ha2.
       + cbn [ds_live]. rewrite app_length. cbn. lia.
       + unfold c15_spec_dbg_servable, c15_spec_unservable, c15_unservable_bytes. unfold c15_sys_limit in Hlim.
         apply andb_true_iff. split.
@@ -128,8 +148,9 @@ Section C15DbgHistory.
     unfold c15_dbg_deallocate in Hd. rewrite Hit in Hd. unfold c15_dbg_step_free. rewrite Hd.
     eexists. split; [reflexivity|]. split.
     - pose proof (di_wf _ _ I) as W. pose proof (di_nodup _ _ I) as D. pose proof (di_below _ _ I) as B.
-      pose proof (di_type _ _ I) as T.
-      rewrite El in W, D, B, T. rewrite map_app in D. cbn in D.
+      pose proof (di_type _ _ I) as T. pose proof (di_ext _ _ I) as X. pose proof (di_sep _ _ I) as S.
+      rewrite El in W, D, B, T, X, S. rewrite map_app in D. cbn in D.
+      apply Forall_app in X. destruct X as [X1 X2]. inversion X2; subst.
       apply Forall_app in W. destruct W as [W1 W2]. inversion W2; subst.
       apply Forall_app in B. destruct B as [B1 B2]. inversion B2; subst.
       apply Forall_app in T. destruct T as [T1 T2]. inversion T2; subst.
@@ -140,6 +161,8 @@ Section C15DbgHistory.
       + apply (di_next _ _ I).
       + rewrite (di_live _ _ I), c15_remove_nth_map, Er. reflexivity.
       + apply Forall_app; split; assumption.
+      + apply Forall_app; split; assumption.
+      + eapply c15_fop_remove; exact S.
     - cbn [ds_live]. rewrite (di_live _ _ I), c15_remove_nth_map, Er, El, !map_length, !app_length. cbn. lia.
   Qed.
 
@@ -166,6 +189,64 @@ Section C15DbgHistory.
       + exfalso. apply Hnp. cbn [c15_dbg_step].
         assert (En : nth_error (ds_live st) i = None) by (apply nth_error_None; lia).
         rewrite En. left; reflexivity.
+  Qed.
+
+  Lemma c15_dbg_final_inv ops : forall st, c15_dbg_inv page st -> forallb c15_op_plain ops = true ->
+    forall st', c15_dbg_final true true page sT st ops = Some st' -> c15_dbg_inv page st'.
+  Proof.
+    induction ops as [|op ops IH]; intros st I Hpl st' Hf; [cbn in Hf; inversion Hf; subst; exact I|].
+    cbn [forallb] in Hpl. apply andb_true_iff in Hpl. destruct Hpl as [Hop Hpl].
+    cbn [c15_dbg_final] in Hf. destruct op as [n|i| | | | ]; try discriminate.
+    - destruct (c15_dbg_step_alloc st n I) as [E|(st1 & E & I1 & _ & _)]; rewrite E in Hf; eapply IH; eassumption.
+    - destruct (Nat.lt_ge_cases i (length (ds_live st))) as [Hi|Hi].
+      + destruct (c15_dbg_step_free_ok st i I Hi) as (st1 & E & I1 & _). rewrite E in Hf. eapply IH; eassumption.
+      + cbn [c15_dbg_step] in Hf. assert (En : nth_error (ds_live st) i = None) by (apply nth_error_None; lia).
+        rewrite En in Hf. eapply IH; eassumption.
+  Qed.
+
+  Lemma c15_fop_impl_in {A} (R R' : A -> A -> Prop) l : (forall a b, In a l -> In b l -> R a b -> R' a b) ->
+    ForallOrdPairs R l -> ForallOrdPairs R' l.
+  Proof.
+    intros Himp H. induction H as [|a l Ha Hl IH]; constructor.
+    - rewrite Forall_forall in *. intros b Hb. apply Himp; [left; reflexivity|right; exact Hb|apply Ha; exact Hb].
+    - apply IH. intros x y Hx Hy. apply Himp; right; assumption.
+  Qed.
+
+  (* in every state of the invariant: each live block lies inside its own mapping, directly below the guard page, and the blocks
+     of different live allocations are disjoint (ordered by address in the bookkeeping list) *)
+  Lemma c15_dbg_inv_blocks st : c15_dbg_inv page st ->
+    Forall (fun it => d_page_ptr it <= d_ptr it /\ d_ptr it + d_capacity it + page = d_page_ptr it + d_pages it * page) (ds_list st) /\
+    ForallOrdPairs (fun a b => d_ptr a + d_capacity a <= d_ptr b) (ds_list st).
+  Proof.
+    intros I. assert (Hpne : page <> 0) by lia.
+    assert (HF : Forall (fun it => d_page_ptr it <= d_ptr it /\ d_ptr it + d_capacity it + page = d_page_ptr it + d_pages it * page) (ds_list st)).
+    { pose proof (di_wf _ _ I) as W. pose proof (di_ext _ _ I) as X. rewrite Forall_forall in *. intros it Hit.
+      destruct (W it Hit) as [_ Hptr]. destruct (X it Hit) as [Hpg _].
+      pose proof (N.div_mod (d_capacity it) page Hpne) as Hdm. pose proof (N.mod_upper_bound (d_capacity it) page Hpne) as Hub.
+      rewrite Hptr, Hpg. set (q := d_capacity it / page) in *. set (r := d_capacity it mod page) in *. clearbody q r. split; nia. }
+    split; [exact HF|].
+    eapply c15_fop_impl_in; [|apply (di_sep _ _ I)]. cbn. intros a b Ha Hb Hab.
+    rewrite Forall_forall in HF. destruct (HF a Ha) as [_ Ea]. destruct (HF b Hb) as [Eb _]. lia.
+  Qed.
+
+  Theorem c15_debug_blocks_disjoint ops st' : forallb c15_op_plain ops = true ->
+    c15_dbg_final true true page sT (c15_dbg_state0 page) ops = Some st' ->
+    ds_live st' = map c15_dbg_view (ds_list st') /\
+    Forall (fun it => d_page_ptr it <= d_ptr it /\ d_ptr it + d_capacity it + page = d_page_ptr it + d_pages it * page) (ds_list st') /\
+    ForallOrdPairs (fun a b => d_ptr a + d_capacity a <= d_ptr b) (ds_list st').
+  Proof.
+    intros Hpl Hf. pose proof (c15_dbg_final_inv ops _ (c15_dbg_inv0 page) Hpl st' Hf) as I.
+    split; [apply (di_live _ _ I)|apply c15_dbg_inv_blocks; exact I].
+  Qed.
+
+  (* destroying the manager after any history: every mapping still listed is returned; it aborts iff blocks are still in use *)
+  Theorem c15_debug_destroy_final ops st' : forallb c15_op_plain ops = true ->
+    c15_dbg_final true true page sT (c15_dbg_state0 page) ops = Some st' ->
+    c15_spec_dbg_destroy (length (ds_live st')) (length (fst (c15_dbg_destroy (ds_list st')))) (snd (c15_dbg_destroy (ds_list st'))) = true.
+  Proof.
+    intros Hpl Hf. pose proof (c15_dbg_final_inv ops _ (c15_dbg_inv0 page) Hpl st' Hf) as I.
+    unfold c15_spec_dbg_destroy, c15_dbg_destroy. cbn [fst snd].
+    rewrite (di_live _ _ I), !map_length, Nat.eqb_refl. cbn. destruct (Nat.eqb _ 0); reflexivity.
   Qed.
 
   Theorem c15_debug_history ops : forallb c15_op_plain ops = true ->
